@@ -38,6 +38,11 @@ def gen_dur(rng, nominal=0.35):
     if rng.random() < nominal:
         y = rng.choice([0, 0, 1, -1, 2, 10])
         mo = rng.choice([0, 1, -1, 12, 13, -5])
+        if rng.random() < 0.25:
+            # long nominal durations: whole leap cycles of years (the rough length stays 365 d a year, 30 d a month
+            # however many), many months
+            y = rng.choice([100, 399, 400, 401, 800, -400, -401, 1000, 1200, 9999, rng.randint(-5000, 5000)])
+            mo = rng.choice([0, 0, 1, -1, 4800, -4800, 120, rng.randint(-6000, 6000)])
     vals = []
     for table in ([0, 0, 1, -1, 7, -7, 14, 30, 31, 360, 365, 366], [0, 0, 1, -1, 23, 24, 25, 48, 168],
                   [0, 0, 1, 59, 60, 61, -60, 1440], [0, 0, 1, 59, 60, -61, 3600, 86400, -86400]):
